@@ -107,6 +107,9 @@ func runC16(c *Ctx) {
 	c.OpenShards("From Verif Require Import Base.Prelude Misc.Console Harness.C16H.",
 		"c16_case * c16_obs", "mismatches c16_run c16_eqb", 200)
 
+	// hlib seeds splitmix64 with seed*gamma+c and Next() adds gamma, so seed s+1 is the stream of seed s
+	// shifted by one; forking once first puts this run's per-case generators on an unrelated part of the orbit
+	root := c.R.Fork()
 	interiorNL := 0
 	emit := func(cs *Case, class string) {
 		reps := 3
@@ -315,7 +318,7 @@ func runC16(c *Ctx) {
 	kinds := map[string]int{}
 	keyClasses := map[string]int{}
 	for i := 0; i < nrand; i++ {
-		r := c.R.Fork()
+		r := root.Fork()
 		tff := timeFieldFormats[r.Intn(len(timeFieldFormats))]
 		zerolog.TimeFieldFormat = tff
 		st := &evStats{kinds: kinds, keyClasses: keyClasses}
@@ -360,7 +363,7 @@ func runC16(c *Ctx) {
 		emit(def([]byte(s)), "malformed")
 	}
 	for i := 0; i < 60; i++ {
-		r := c.R.Fork()
+		r := root.Fork()
 		ev := genEvent(r, nil)
 		if len(ev) > 2 {
 			switch r.Intn(3) {
